@@ -313,6 +313,72 @@ def _index_churn(keep=1000, churn=10001, second=False):
     return {"kind": "cache", "expire": 100 * S, "limit": 0, "phase": 0, "hide": K, "calls": calls}
 
 
+def _take_recency_fixed():
+    """a Take that HITS is a use: Set a, Set b, Take a (hit), Set c on a limit-2 cache evicts b, not a (also with Get,
+    with a failing fetch that must not be run, and on limit 3)"""
+    out = []
+    for limit, use in ((2, "take"), (2, "takefail"), (2, "get"), (3, "take")):
+        keys = ["k%d" % i for i in range(limit)]
+        calls = [{"op": "set", "key": k, "val": 10 + i, "draw": 2 ** 62} for i, k in enumerate(keys)]
+        if use == "get":
+            calls.append({"op": "get", "key": "k0"})
+        else:
+            calls.append({"op": "take", "key": "k0", "val": 99, "fail": use == "takefail", "draw": 2 ** 62})
+        calls.append({"op": "set", "key": "k7", "val": 70, "draw": 2 ** 62})            # evicts k1, the least recently used
+        calls += [{"op": "get", "key": k} for k in ["k0", "k1", "k7"]]
+        calls.append({"op": "take", "key": "k1", "val": 5, "fail": False, "draw": 2 ** 62})   # miss: fetched, cached, evicts again
+        calls += [{"op": "get", "key": k} for k in keys + ["k7"]]
+        out.append({"kind": "cache", "expire": 50 * S, "limit": limit, "phase": 3, "calls": calls})
+    return out
+
+
+def _resets(seq, phase, draws=None):
+    """seq = [(ticks to wait before, expiry in s), ...] of SetWithExpire calls on one key, then ticks past the window
+    of the LAST one; every tick is observed, so the entry must leave within [95%,105%] of its last Set and not before"""
+    calls = []
+    last = 0
+    for i, (gap, e) in enumerate(seq):
+        calls += [{"op": "tick"}] * gap
+        calls.append({"op": "setx", "key": "k0", "val": i + 1, "expire": e * S, "draw": (draws or [2 ** 62] * len(seq))[i]})
+        last = e
+    calls += [{"op": "get", "key": "k0"}]
+    calls += [{"op": "tick"}] * (last * 105 // 100 + 3)
+    calls += [{"op": "get", "key": "k0"}]
+    return {"kind": "cache", "expire": 60 * S, "limit": 0, "phase": phase, "calls": calls}
+
+
+def _mixed_fixed():
+    """long -> short (the long one is more than one 300-slot revolution), short -> long -> short, and moved-then-shorter"""
+    return [_resets([(0, 600), (5, 30)], 0), _resets([(0, 600), (5, 30)], 290, [0, 2 ** 63 - 2048]),
+            _resets([(0, 100), (50, 100), (3, 10)], 0), _resets([(0, 100), (50, 100), (3, 10)], 250, [2 ** 62, 0, 0]),
+            _resets([(0, 20), (5, 400), (7, 15)], 120), _resets([(0, 900), (290, 5)], 17)]
+
+
+def _mixed_reset(rng):
+    """systematic mixed-expiry re-Sets of one key: 2-4 Sets with expiries from both sides of one wheel revolution"""
+    pool = [5, 10, 30, 100, 290, 300, 310, 600]
+    n = rng.randint(2, 4)
+    seq = []
+    for i in range(n):
+        e = rng.choice(pool)
+        gap = 0 if i == 0 else rng.randrange(1, max(2, min(seq[-1][1] * 9 // 10, 120)))
+        seq.append((gap, e))
+    if rng.random() < 0.6:          # end on a short one
+        seq[-1] = (seq[-1][0], rng.choice([5, 10, 30]))
+    return _resets(seq, rng.randrange(300), [_draw(rng) for _ in seq])
+
+
+def _auth_fixed():
+    """the authenticator caches per APP: different tokens for one app, sequentially and overlapping, cost one lookup"""
+    ops = [{"op": "set", "app": "a0", "token": "t0"}, {"op": "set", "app": "a1", "token": "t1"}]
+    ops += [{"op": "call", "app": "a0", "token": t} for t in ("t1", "t0", "t2", "t0", "t3")]
+    ops += [{"op": "burst", "app": "a1", "tokens": ["t0", "t1", "t2", "t3", "t1", "t0"]}]
+    ops += [{"op": "call", "app": "a1", "token": t} for t in ("t2", "t1")]
+    ops += [{"op": "expire", "app": "a0"}, {"op": "burst", "app": "a0", "tokens": ["t3", "t2", "t1", "t0"]},
+            {"op": "call", "app": "a0", "token": "t1"}, {"op": "call", "app": "a0", "token": "t0"}]
+    return [{"kind": "auth", "strict": False, "ops": ops}, {"kind": "auth", "strict": True, "ops": ops}]
+
+
 def _long(rng, hours):
     e = hours * H
     calls = [{"op": "set", "key": "k0", "val": 1, "draw": _draw(rng)}, {"op": "set", "key": "k1", "val": 2, "draw": 0},
@@ -327,15 +393,17 @@ def generate(rng, tier, n):
         cases += [_long(rng, 1), _long(rng, 3), _long(rng, 6)]
     nj = max(10, n // 12)
     na = max(10, n // 12)
-    cases += _jitter_fixed() + _long_fixed() + [_index_churn()]
+    cases += [_index_churn()] + _jitter_fixed() + _long_fixed() + _take_recency_fixed() + _mixed_fixed() + _auth_fixed()
     if tier == "thorough":
         cases += [_index_churn(second=True), _index_churn(keep=1040, churn=10017), _index_churn(keep=1003, churn=12000, second=True)]
     cases += [_jitter(rng) for _ in range(nj)]
     cases += [_auth(rng) for _ in range(na)]
     while len(cases) < n:
         r = rng.random()
-        if r < 0.12:
+        if r < 0.1:
             cases.append(_long_quick(rng))
+        elif r < 0.18:
+            cases.append(_mixed_reset(rng))
         elif r < 0.3:
             cases.append(_reinsert(rng))
         else:
@@ -368,7 +436,7 @@ def drive(cases, tier):
 
 def search(rng, problems):
     """long expiries first (fixed), then re-set at chosen wheel phases (the D7 classes seen through the cache)"""
-    out = _jitter_fixed() + _long_fixed()
+    out = _jitter_fixed() + _long_fixed() + _take_recency_fixed() + _mixed_fixed() + _auth_fixed() + [_mixed_reset(rng) for _ in range(40)]
     for _ in range(150):
         e = rng.choice([20, 21, 19, 5, 60])
         phase = rng.randrange(300)
@@ -413,8 +481,8 @@ def encode(case, obs):
             else:
                 ops.append("ACall %s %s" % (_n(o["app"]), _n(o["token"])))
         codes = [cnat(c if c >= 0 else 99) for c in obs.get("codes", [])]
-        return "CA (mka %s %s %s %s %s)" % (cbool(case["strict"]), clist(ops), clist(codes), clist([cnat(x) for x in obs.get("lookups", [])]),
-                                            cbool(bool(obs.get("hung")) or "error" in obs))
+        return "CA (mka %s %s %s %s %s %s)" % (cbool(case["strict"]), clist(ops), clist(codes), clist([cnat(x) for x in obs.get("lookups", [])]),
+                                               clist([cnat(x) for x in obs.get("call_lookups", [])]), cbool(bool(obs.get("hung")) or "error" in obs))
     if obs.get("skipped"):      # the driver stopped running cases after too many of them hung
         return "CC (mkcase %s %s 0%%nat %s false 0%%nat [] [])" % (cZ(case["expire"]), cZ(case["limit"]), cZ(S))
     ops, os_ = [], []
